@@ -120,15 +120,19 @@ structure Params (V : Type) where
   /-- `Contour.move`: representation name, cached value, (dx, dy) ↦ patched value -/
   patch : String → V → Int → Int → V
 
-/-! ### declared mutators: method ↦ the cell it rewrites (the dependency matrix, mutator side) -/
+/-! ### declared mutators: method ↦ the cell it rewrites (the dependency matrix, mutator side)
+
+`.pts`: the point geometry; `.attr`: the identifiers (of the object, of its points); `.both`: a method that adds,
+removes or reorders points rewrites the list of point identifiers with them.  The public table with guards is
+`ReprCells.mutSpecs`; `Props.C03.cells_agree` checks that the two say the same. -/
 
 inductive CCell where | pts | attr | both
 deriving DecidableEq, Repr, Inhabited
 
 def contourMutators : List (String × CCell) :=
-  [("appendPoint", .pts), ("addPoint", .pts), ("insertPoint", .pts), ("removePoint", .pts),
-   ("setStartPoint", .pts), ("clear", .pts), ("reverse", .pts), ("_set_clockwise", .pts),
-   ("removeSegment", .pts), ("splitAndInsertPointAtSegmentAndT", .pts),
+  [("appendPoint", .both), ("addPoint", .both), ("insertPoint", .both), ("removePoint", .both),
+   ("setStartPoint", .both), ("clear", .both), ("reverse", .both), ("_set_clockwise", .both),
+   ("removeSegment", .both), ("splitAndInsertPointAtSegmentAndT", .pts),
    ("setDataFromSerialization", .both), ("_set_identifier", .attr), ("generateIdentifier", .attr),
    ("generateIdentifierForPoint", .attr), ("_set_dirty", .attr)]
 
